@@ -216,8 +216,9 @@ class ChunkModel:
                         role = t[2]
                         consts = [a[0][i][2] for a in alts if len(a[0][i]) >= 3 and a[0][i][1] == "const" and isinstance(a[0][i][2], int)]
                         holes = [a[0][i] for a in alts if len(a[0][i]) >= 5 and a[0][i][1] == "hole"]
-                        if len(alts) == 2 and len(consts) == 1 and len(holes) == 1 and holes[0][4] == consts[0] - 1:
-                            # "x if x < c else c" is min(x, c): the variable value is written exactly when it is below the constant
+                        if len(alts) == 2 and len(consts) == 1 and len(holes) == 1 and holes[0][4] in (consts[0] - 1, consts[0]):
+                            # "x if x < c else c" (or "x if x <= c else c") is min(x, c): the variable value is written exactly when it is
+                            # below (not above) the constant
                             role = "min(%s,%d)" % (holes[0][2], consts[0])
                         t = (t[0], t[1], role, min(los), max(his))
                     out.append((h, t))
